@@ -133,7 +133,9 @@ def run(ctx):
             if use_sep != sep:
                 alts = [[p.replace(sep, use_sep) for p in a] for a in alts]
             expr = "||".join(use_sep.join(a) for a in alts)
-            check(f"gitlab-{gscheme}", purl, rcls, expr, [(table[k], v) for k, v in cl], lambda: vr.from_gitlab_native(gscheme, expr))
+            # the converter takes the GitLab name of the package type or the purl type itself
+            gname = purl if (purl != gscheme and r.random() < 0.4) else gscheme
+            check(f"gitlab-{gscheme}", purl, rcls, expr, [(table[k], v) for k, v in cl], lambda: vr.from_gitlab_native(gname, expr))
     # ---- model correspondence on the generic scheme
     G = text.ensure_generic_scheme()
     alph = "0123456789.abAB-+_"
